@@ -30,14 +30,18 @@ HEADER = ("From PT Require Import Base.Str Base.Codes Model.Types Ref.Lexer Ref.
 FAIL, SEEN = [], [0]
 
 
-def leaves(kind):
-    """dialect-sensitive leaves as criteria / select items over table t"""
+def leaves(kind, icls=None):
+    """dialect-sensitive leaves as criteria / select items over table t (icls: the class the part is built with / for)"""
+    idial = icls.SQL_CONTEXT.dialect if icls is not None else None
+
     def f(t):
         return {
             "identifier": (t.a, t.b == 1),
             "string-backslash": (T.ValueWrapper("b\\s"), t.b == "q'\\"),
             "array": (t.a, t.b == T.Array(1, 2)),
             "interval": (t.a, t.b > T.Interval(days=3)),
+            # an interval constructed FOR the dialect of the class its part is built with: the rendering dialect decides, not the argument
+            "interval-dialect-arg": (t.a + T.Interval(hours=2, minutes=5, dialect=idial), t.b > T.Interval(days=3, dialect=idial)),
             "json": (T.JSON({"k": "v"}), t.b.contains({"a": 1}) if hasattr(t.b, "contains") else t.b == 1),
             "boolean-criterion": (t.a, t.b == True),  # noqa: E712
             "number": (t.a + 1, t.b.between(1, 2)),
@@ -45,12 +49,12 @@ def leaves(kind):
     return f
 
 
-LEAF_KINDS = ["identifier", "string-backslash", "array", "interval", "json", "boolean-criterion", "number"]
+LEAF_KINDS = ["identifier", "string-backslash", "array", "interval", "interval-dialect-arg", "json", "boolean-criterion", "number"]
 
 
 def inner_select(icls, kind, n="i"):
     t = P.Table(n)
-    sel, crit = leaves(kind)(t)
+    sel, crit = leaves(kind, icls)(t)
     g = t.c.as_("gx")
     return icls.from_(t).select(sel, g).where(crit).groupby(g)
 
@@ -71,9 +75,13 @@ def constructs(D, I, depth, kind):
         "select-item": lambda: D.from_(o).select(o.a, nest(inner_select(I, kind), depth).as_("si")),
         "cte": lambda: D.with_(nest(inner_select(I, kind), depth), "c1").from_(P.AliasedQuery("c1")).select("*"),
         "setop-operand": lambda: D.from_(o).select(o.a, o.b).where(o.c == 7).union(nest(inner_select(I, kind), depth)),
+        # operands with their own ORDER BY take another path through the set operation's context handling (no LIMIT / OFFSET here: the
+        # row-limiting clause is spelled by the builder class, which is C09's subject and not among the conventions C08 lists)
+        "setop-operand-tail": lambda: D.from_(o).select(o.a, o.b).where(o.c == 7).union(nest(inner_select(I, kind), depth).orderby(T.Field("gx"))),
+        "setop-base-tail": lambda: nest(inner_select(D, kind), 1).orderby(T.Field("a")).union_all(nest(inner_select(I, kind), depth).orderby(T.Field("gx"))),
         "setop-in-from": lambda: D.from_(I.from_(o).select(o.a, o.b).union(inner_select(I, kind))).select("*"),
         "insert-select": lambda: D.into(P.Table("dst")).from_(nest(inner_select(I, kind), depth)).select("*"),
-        "criterion-generic": lambda: D.from_(o).select(o.a).where(leaves(kind)(o)[1] & (o.z == "s\\")),
+        "criterion-generic": lambda: D.from_(o).select(o.a).where(leaves(kind, I)(o)[1] & (o.z == "s\\")),
     }
 
 
